@@ -9,13 +9,18 @@ accepted document; CLI sample.
 """
 from common import prepare
 
-LEVEL_NOTE = ('PROVED: create_ft access skeleton total on schema-valid field type nodes (classes listed in '
-              'Props/C10.v). VALIDATED ONLY: YAML text -> tree, inclusion/alias/inheritance stages, the CLI, '
-              'generation and compilation.')
+LEVEL_NOTE = ('PARTIAL. PROVED (Coq): the access skeleton of _create_fts (Front/CreateConfig.create_ft, tied to the real '
+              '_normalize_props + _create_fts by correspondence on schema-valid nodes) never crashes on a field type tree that is '
+              'accepted by the regenerated final schema and has the documented shape; string field types: the schema alone suffices; '
+              '`_refuted` crash witnesses for S14, S4, null enum mappings, float alignment, non-identifier member names, each replayed. '
+              'VALIDATED ONLY (c10_impl, real code): YAML text -> tree, inclusion / alias / inheritance / v2 conversion stages, the rest '
+              'of _create_config (clock types, data stream types, options), the CLI exit status / traceback / output files, '
+              'generation and compilation of every accepted document.')
 
 
 def run(ctx):
     prepare(ctx)
+    ctx.notes.insert(0, LEVEL_NOTE)
     from props import c10_model, c10_impl
     c10_model.run(ctx)
     c10_impl.run(ctx)
